@@ -18,6 +18,13 @@ pub struct ChainStep {
     pub op: Op,
     /// result i is stored in register dst[i] (extra results are checked but not stored)
     pub dst: Vec<usize>,
+    /// registers handed to this call as JSON text (rendered from the tree) instead of JSONB
+    pub text_regs: Vec<usize>,
+}
+
+/// What the library sees when register `i` is passed as text: the tree the text denotes.
+fn model_inputs(regs: &[MVal], text_regs: &[usize]) -> Vec<MVal> {
+    regs.iter().enumerate().map(|(i, v)| if text_regs.contains(&i) { v.text_norm() } else { v.clone() }).collect()
 }
 
 #[derive(Clone, Debug)]
@@ -121,13 +128,24 @@ impl Scenario for Chain {
         }
         let len = *r.pick(&[1usize, 2, 3, 5, 8, 12, 20, 40]);
         let ocfg = OpGenCfg { kinds: &kinds, vals: &vals, filters, fail_pct: *r.pick(&[0u64, 5, 15]) };
+        let text_pct = *r.pick(&[0u64, 0, 0, 20, 50]);
         // generation follows the model so that arguments are chosen from the *current* documents
         let mut cur = regs.clone();
         let mut steps = vec![];
         for _ in 0..len {
             let kind = *r.pick(&kinds);
             let op = opgen::gen_op(&mut r, kind, &cur, &ocfg);
-            let results: Vec<MVal> = match model::apply(&op, &cur) {
+            let reads = op.reads();
+            let mut text_regs: Vec<usize> = vec![];
+            for (pos, reg) in reads.iter().enumerate() {
+                if op.arg_accepts_text(pos) && !cur[*reg].has_nonfinite() && r.chance(text_pct, 100) && !text_regs.contains(reg) {
+                    text_regs.push(*reg);
+                }
+            }
+            if op.second_text_needs_first_text() && reads.len() == 2 && !text_regs.contains(&reads[0]) {
+                text_regs.clear();
+            }
+            let results: Vec<MVal> = match model::apply(&op, &model_inputs(&cur, &text_regs)) {
                 ModelOut::Wrote(Ok(v)) => v,
                 ModelOut::Returned(Some(v)) => v,
                 _ => vec![],
@@ -141,7 +159,7 @@ impl Scenario for Chain {
                     cur[dst[i]] = res.clone();
                 }
             }
-            steps.push(ChainStep { op, dst });
+            steps.push(ChainStep { op, dst, text_regs });
         }
         Case { regs, steps }
     }
@@ -173,10 +191,18 @@ impl Scenario for Chain {
                     stats.inc("probe/index_path");
                 }
             }
-            let want = model::apply(op, &mregs);
+            // a register passed as text must be renderable; a shrunk case may have broken that: fall back to JSONB
+            let text_regs: Vec<usize> = st.text_regs.iter().copied().filter(|i| *i < mregs.len() && !mregs[*i].has_nonfinite()).collect();
+            let want = model::apply(op, &model_inputs(&mregs, &text_regs));
+            let args: Vec<Vec<u8>> = if text_regs.is_empty() {
+                bregs.clone()
+            } else {
+                stats.inc("probe/text_argument_step");
+                bregs.iter().enumerate().map(|(i, b)| if text_regs.contains(&i) { mval::to_text(&mregs[i], &mval::TextStyle::default()).into_bytes() } else { b.clone() }).collect()
+            };
             let mut buf = Vec::new();
             let mut offs = Vec::new();
-            let got = match guard(|| ops::call(op, &bregs, &mregs, &mut buf, &mut offs)) {
+            let got = match guard(|| ops::call(op, &args, &mregs, &mut buf, &mut offs)) {
                 Ok(g) => g,
                 Err(p) => {
                     violation = Some(Viol { class: format!("panic:{name}:{}", p.loc), detail: format!("step {si} ({name}) panicked at {}: {}", p.loc, p.msg) });
@@ -295,7 +321,7 @@ impl Scenario for Chain {
         stats.maxi("history_length", case.steps.len() as u64);
         stats.sample(6, || {
             json!({"registers": case.regs.iter().map(mval::to_json).collect::<Vec<_>>(),
-                   "history": case.steps.iter().take(8).map(|s| json!({"call": s.op.to_json(), "dst": s.dst})).collect::<Vec<_>>(),
+                   "history": case.steps.iter().take(8).map(|s| json!({"call": s.op.to_json(), "dst": s.dst, "text_regs": s.text_regs})).collect::<Vec<_>>(),
                    "history_length": case.steps.len()})
         });
         let violations = match violation {
@@ -326,6 +352,13 @@ impl Scenario for Chain {
             for i in 0..n {
                 let mut c = case.clone();
                 c.steps.remove(i);
+                out.push(c);
+            }
+        }
+        for i in 0..n {
+            if !case.steps[i].text_regs.is_empty() {
+                let mut c = case.clone();
+                c.steps[i].text_regs.clear();
                 out.push(c);
             }
         }
@@ -370,7 +403,7 @@ impl Scenario for Chain {
             "registers": case.regs.iter().map(mval::to_replay).collect::<Vec<_>>(),
             "registers_json": case.regs.iter().map(mval::to_json).collect::<Vec<_>>(),
             "registers_hex": case.regs.iter().map(|r| mval::hex(&mval::encode(r))).collect::<Vec<_>>(),
-            "history": case.steps.iter().map(|s| json!({"call": s.op.to_json(), "dst": s.dst})).collect::<Vec<_>>(),
+            "history": case.steps.iter().map(|s| json!({"call": s.op.to_json(), "dst": s.dst, "text_regs": s.text_regs})).collect::<Vec<_>>(),
         })
     }
 
@@ -381,6 +414,7 @@ impl Scenario for Chain {
             steps.push(ChainStep {
                 op: Op::from_json(&s["call"])?,
                 dst: s["dst"].as_array().map(|a| a.iter().filter_map(|x| x.as_u64().map(|v| v as usize)).collect()).unwrap_or_default(),
+                text_regs: s["text_regs"].as_array().map(|a| a.iter().filter_map(|x| x.as_u64().map(|v| v as usize)).collect()).unwrap_or_default(),
             });
         }
         Ok(Case { regs, steps })
@@ -394,7 +428,8 @@ impl Scenario for Chain {
         "A case is a history: 2-6 registers holding canonical documents produced by the independent encoder, then 1-40 operations drawn from a per-run random subset \
          of the editing, set, extraction, building and path-selection functions, with arguments derived from the documents currently in the registers (existing / \
          case-variant / missing keys, indices from -len-1..len+1, key paths and JSONPaths built by walking the document, optionally overshooting); each result is \
-         written back into registers and feeds later steps. After every step the four oracles run. distinct_nontrivial = histories with at least two successful steps \
+         written back into registers and feeds later steps; in some runs a seeded fraction of document arguments is handed over as JSON text rendered from the tree \
+         (the functions' text branch) instead of JSONB. After every step the four oracles run. distinct_nontrivial = histories with at least two successful steps \
          whose final register file (64-bit hash of all register bytes) had not been reached by another history of this run; states = distinct result documents."
             .into()
     }
@@ -434,6 +469,7 @@ impl Scenario for Chain {
             "probe/index_path",
             "probe/multi_result_step",
             "probe/empty_selection",
+            "probe/text_argument_step",
         ]
     }
 }
